@@ -297,7 +297,7 @@ def base_documents():
 
 NAME_ALPHA = ['', 'x', 'a  b', 'ünï', '\U0001F600', '<p>', 'Scenario: y', '@t', '# h', '| c |', '"""', ':', ' lead', 'Given x', '\\n']
 TEXT_ALPHA = ['', 'x', 'a  b', 'ünï \U0001F600', '<p>', 'Scenario: y', '@t #c', '| c |', '"""', ' two  ', '\\', 'And z', ':']
-TAG_ALPHA = ['@t', '@ünï', '@\U0001F600x', '@a#b', '@1', '@t-1:2', '@T"q']
+TAG_ALPHA = ['@', '@t', '@ünï', '@\U0001F600x', '@a#b', '@1', '@t-1:2', '@T"q']
 CELL_ALPHA = ['', 'x', 'a b', 'ü', '\U0001F600', 'a|b', 'a\\b', 'l1\nl2', '<p>', '@t', '# c', 'Given x', '"""', '\\', '\n']
 DESC_ALPHA = [T('escaped \\`\\`\\` and \\"\\"\\" in prose'), T('plain'), T('  indented  '), T('Examples: x'), T('* not a step'), T('\ttab'), T('ünï \U0001F600'), C('# comment'), C('   # ind comment'), B(''), B('  '),
               T('Scenario x'), T('"""'), T('| a |'), T('@tag'), T('Given x')]
